@@ -266,6 +266,64 @@ def from_wire(data):
     return Message.decode(data)
 
 
+def build_message(code, options, payload):
+    """An OUTGOING aiocoap message from raw (number, value) options."""
+    from aiocoap import Message
+    from simkit import refcodec as rc
+
+    m = Message(code=code)
+    if options:
+        m.opt.decode(rc.encode_options(options, b""))
+    m.payload = payload
+    return m
+
+
+def options_of(msg):
+    """[(number, value)] of an aiocoap message, decoded by the reference codec."""
+    from simkit import refcodec as rc
+
+    opts, _ = rc.decode_options(msg.opt.encode(), 0)
+    return [(int(n), bytes(v)) for n, v in opts]
+
+
+def lenient_oscore_option(value):
+    """Field view of a (possibly tampered) OSCORE option value the way a
+    tolerant receiver reads it: n up to 7, reserved bits reported, trailing
+    bytes reported. Raises ValueError only when announced bytes are missing."""
+    if value == b"":
+        return {"flags": 0, "piv": None, "kid_context": None, "kid": None, "rest": b"", "reserved": 0, "group": False}
+    fb = value[0]
+    tail = value[1:]
+    n = fb & 7
+    piv = None
+    if n:
+        if len(tail) < n:
+            raise ValueError("short piv")
+        piv, tail = tail[:n], tail[n:]
+    ctxv = None
+    if fb & 0x10:
+        if not tail or len(tail) - 1 < tail[0]:
+            raise ValueError("short kid context")
+        s = tail[0]
+        ctxv, tail = tail[1:1 + s], tail[1 + s:]
+    kid = None
+    if fb & 0x08:
+        kid, tail = tail, b""
+    return {"flags": fb, "piv": piv, "kid_context": ctxv, "kid": kid, "rest": tail, "reserved": fb & 0xC0,
+            "group": bool(fb & 0x20)}
+
+
+def build_oscore_option(piv=None, kid=None, kid_context=None, extra_flags=0):
+    fb = (len(piv) if piv else 0) | (0x08 if kid is not None else 0) | (0x10 if kid_context is not None else 0)
+    fb |= extra_flags
+    out = bytes([fb & 0xFF]) + (piv or b"")
+    if kid_context is not None:
+        out += bytes([len(kid_context) & 0xFF]) + kid_context
+    if kid is not None:
+        out += kid
+    return out
+
+
 def parse_oscore_option(value):
     """Independent parser of the OSCORE option value (RFC 8613 section 6.1).
     Returns dict(flags, n, piv (bytes|None), kid_context (bytes|None), kid (bytes|None), rest) or
